@@ -219,8 +219,14 @@ func runC10(c *report.Ctx) {
 	ruleMaturityPerTemplate(c)
 	ruleRelevantIndexStored(c)
 
-	// ---- the import path applies spends (and so withdrawals) of a transaction another wallet already recorded ----
-	c.Rule("import-applies-spends", "insertMinedTxForImporting passes updateMinedBalance on every success path (also when the transaction record already exists because another wallet shares the transaction): a withdrawal of the imported wallet's deposit is applied to its credit, history and balance", 1)
+	ruleImportAppliesSpends(c)
+	// a deposit is reported withdrawable exactly from the confirmation count its script's lock demands
+	ruleMaturityAtoms(c, map[string]bool{"WithdrawableStaking": true, "WithdrawableBinding": true})
+}
+
+// ruleImportAppliesSpends (C10, C08): the import path applies the spends of a transaction another wallet already recorded.
+func ruleImportAppliesSpends(c *report.Ctx) {
+	c.Rule("import-applies-spends", "insertMinedTxForImporting passes updateMinedBalance on every success path (also when the transaction record already exists because another wallet shares the transaction — e.g. one a removal deliberately kept): a spend or withdrawal by the imported wallet is applied to its credit, history and balance", 1)
 	mustPass(c, fn(c, pkgTxmgr, "TxStore", "insertMinedTxForImporting"), an.Set(fn(c, pkgTxmgr, "TxStore", "updateMinedBalance")), "updateMinedBalance")
 }
 
